@@ -25,18 +25,18 @@ def tableProb (j : Json) : J.R TableProb := do
   let ineqWt ← J.fieldD j "ineq_wt" (J.list J.rat) []
   let eq ← J.fieldD j "eq" (J.list (pairOf "vec" "target")) []
   let eqWt ← J.fieldD j "eq_wt" (J.list J.rat) []
+  let ineqSigned ← J.fieldD j "ineq" (J.list (fun c => J.fieldD c "signed" J.bool false)) []
+  let eqSigned ← J.fieldD j "eq" (J.list (fun c => J.fieldD c "signed" J.bool false)) []
   if lin.length != space.length then J.fail "lin rows != |space|" else
   if space.eraseDups.length != space.length then J.fail "space has duplicates" else
-  pure { space, k, lin, mean, quad, posw, objWt, ineq, ineqWt, eq, eqWt }
+  pure { space, k, lin, mean, quad, posw, objWt, ineq, ineqWt, eq, eqWt, ineqSigned, eqSigned }
 
 abbrev Val := List Rat × List Rat × List Rat
 
 def ofVal (v : Val) : List (String × Json) :=
   [("obj", J.ofList J.ofRat v.1), ("ineqcv", J.ofList J.ofRat v.2.1), ("eqcv", J.ofList J.ofRat v.2.2)]
 
-/-- evaluation used by the algorithm models: members outside the candidate set cannot occur
-    (the start subset is checked by the op), the default is never read -/
-def evalD (p : TableProb) (x : List Int) : Val := (p.evalfn x).getD ([], [], [])
+def evalD (p : TableProb) (x : List Int) : Val := p.evalD x
 
 def singleKey (p : TableProb) (e : Int) : Rat := ((evalD p [e]).1).getD 0 0
 
@@ -64,6 +64,14 @@ def opHillclimb : J.Op := fun j => do
   let init ← J.field j "init" (J.list J.int)
   if !(init.all (fun e => p.space.contains e)) then J.fail "init not in space" else
   pure <| hcAnswer (hillclimb (evalD p) TableProb.key p.space init fuel)
+
+/-- UnconstrainedSteepestAscentSetHillClimber.optimize(objfn, k, sspace, objfn_wt): `objWt` of the table plays
+    `objfn_wt`, the weighted score is `numpy.dot(score, objfn_wt)` -/
+def opSteepestAscent : J.Op := fun j => do
+  let p ← J.field j "prob" tableProb
+  let init ← J.field j "init" (J.list J.int)
+  if !(init.all (fun e => p.space.contains e)) then J.fail "init not in space" else
+  pure <| hcAnswer (steepestAscent (evalD p) (fun v => Np.sum v.1) p.space init fuel)
 
 def opSortingHillclimb : J.Op := fun j => do
   let p ← J.field j "prob" tableProb
@@ -103,6 +111,20 @@ def opMutatorRow : J.Op := fun j => do
   let alleleix ← J.field j "alleleix" (J.list J.nat)
   pure <| J.ofMat J.ofInt (mutatorRows space x lociix alleleix)
 
+/-- Solution assembly: the members of pymoo's result (`res.X/F/G/H`, one row per member) -> the four
+    arrays of the Solution -/
+def opAssemble : J.Op := fun j => do
+  let X ← J.field j "X" (J.mat J.rat)
+  let F ← J.field j "F" (J.mat J.rat)
+  let G ← J.field j "G" (J.mat J.rat)
+  let H ← J.field j "H" (J.mat J.rat)
+  if F.length != X.length || G.length != X.length || H.length != X.length then J.fail "res arrays differ in length" else
+  let opt : List (Indiv Rat (List Rat)) :=
+    (List.zip X (List.zip F (List.zip G H))).map (fun r => ⟨r.1, r.2.1, r.2.2.1, r.2.2.2⟩)
+  let s := assemble opt
+  pure <| J.obj [("decn", J.ofMat J.ofRat s.decn), ("obj", J.ofMat J.ofRat s.obj),
+    ("ineqcv", J.ofMat J.ofRat s.ineqcv), ("eqcv", J.ofMat J.ofRat s.eqcv)]
+
 def opRound : J.Op := fun j => do
   let xs ← J.field j "xs" (J.list J.rat)
   pure <| J.ofList J.ofInt (xs.map roundHalfEven)
@@ -112,10 +134,12 @@ def opRound : J.Op := fun j => do
 def absR (q : Rat) : Rat := if q < 0 then -q else q
 def maxR (a b : Rat) : Rat := if a < b then b else a
 
-/-- tolerant equality of a reported value and a fresh evaluation (floats on both sides) -/
+/-- equality of a reported value and a fresh evaluation of the same function at the same decision
+    (floats on both sides): equal, or within 1e-9 RELATIVE to their magnitude.  No absolute slack: an
+    absolute tolerance would hide wrong values on objectives of tiny scale (1e-9) -/
 def closeR (a b : Rat) : Bool :=
   let d := absR (a - b)
-  decide (d ≤ (1 : Rat) / 1000000000000) || decide (d ≤ (1 : Rat) / 1000000000 * maxR (absR a) (absR b))
+  a == b || decide (d ≤ (1 : Rat) / 1000000000 * maxR (absR a) (absR b))
 
 def closeL (a b : List Rat) : Bool := a.length == b.length && (List.zip a b).all (fun p => closeR p.1 p.2)
 
@@ -170,9 +194,9 @@ def opSpecSolution : J.Op := fun j => do
   let feasible := decn.all feasRow
   let truthful := (List.zip (List.zip obj (List.zip ineqcv eqcv)) fr).all (fun p =>
     closeL p.1.1 p.2.obj && closeL p.1.2.1 p.2.ineqcv && closeL p.1.2.2 p.2.eqcv)
-  let rows := (List.zip obj (List.zip ineqcv eqcv)).zipIdx
-  let nondom := rows.all (fun a => rows.all (fun b =>
-    a.2 == b.2 || !Pareto.dominates b.1.1 (cvOf b.1.2.1 b.1.2.2) a.1.1 (cvOf a.1.2.1 a.1.2.2)))
+  let nondom := nondomB (fun (b a : List Rat × List Rat × List Rat) =>
+      Pareto.dominates b.1 (cvOf b.2.1 b.2.2) a.1 (cvOf a.2.1 a.2.2))
+    (List.zip obj (List.zip ineqcv eqcv))
   pure <| J.obj [("ok", J.ofBool (shapes && feasible && truthful && nondom)),
     ("shapes", J.ofBool shapes), ("feasible", J.ofBool feasible), ("truthful", J.ofBool truthful),
     ("nondominated", J.ofBool nondom)]
@@ -186,35 +210,37 @@ def opSpecPopulation : J.Op := fun j => do
   let bad := rows.filter (fun r => !feasibleB space k r)
   pure <| J.obj [("ok", J.ofBool bad.isEmpty), ("bad", J.ofMat J.ofInt (bad.take 3))]
 
-/-- brute force over all C(n,k) subsets: the reported objective is the minimum -/
+/-- brute force over all C(n,k) subsets, in exact arithmetic on the table model: no subset has a
+    smaller score than the returned decision (and the reported objective is that decision's score) -/
 def opSpecOptimum : J.Op := fun j => do
   let p ← J.field j "prob" tableProb
   let decn ← J.field j "decn" (J.list J.int)
   let obj ← J.field j "obj" J.rat
   let score (x : List Int) : Rat := Np.sum (evalD p x).1
-  let all := combos p.k p.space
-  let best := all.foldl (fun m x => if score x < m then score x else m) (score decn)
-  let better := all.filter (fun x => decide (score x < obj) && !closeR (score x) obj)
-  pure <| J.obj [("ok", J.ofBool (better.isEmpty && closeR (score decn) obj)), ("n_subsets", J.ofNat all.length),
+  let mine := score decn
+  let better := betterSubsets score p.k p.space decn
+  let best := better.foldl (fun m x => if score x < m then score x else m) mine
+  pure <| J.obj [("ok", J.ofBool (optimumB score p.k p.space decn && closeR mine obj)), ("n_subsets", J.ofNat (combos p.k p.space).length),
     ("optimum", J.ofRat best), ("witness", J.ofMat J.ofInt (better.take 1))]
 
 /-- no single exchange (member i of the decision against a candidate outside it) has a smaller
-    (constraint violation, score) than the returned decision -/
+    (constraint violation, score) than the returned decision.  `ok`: violation = Σ max(0,g) + Σ |h|
+    (the problem formulation G ≤ 0, H = 0); `ok_raw`: the climbers' own key Σ g + Σ h (identical for
+    penalty-style constraint functions).  Exact rational comparison for every magnitude. -/
 def opSpecLocalOpt : J.Op := fun j => do
   let p ← J.field j "prob" tableProb
   let decn ← J.field j "decn" (J.list J.int)
-  let cur := TableProb.key (evalD p decn)
-  let wrk := complement p.space decn
-  let better := (pairs decn.length wrk.length).filter (fun ij =>
-    lexLt (TableProb.key (evalD p (exch decn wrk ij.1 ij.2).1)) cur)
-  pure <| J.obj [("ok", J.ofBool better.isEmpty), ("n_neighbours", J.ofNat (decn.length * wrk.length)),
+  let better := betterExchanges (evalD p) TableProb.vkey p.space decn
+  pure <| J.obj [("ok", J.ofBool (localOptB (evalD p) TableProb.vkey p.space decn)),
+    ("ok_raw", J.ofBool (localOptB (evalD p) TableProb.key p.space decn)),
+    ("n_neighbours", J.ofNat (decn.length * (complement p.space decn).length)),
     ("witness", J.ofList (fun ij => J.ofList J.ofNat [ij.1, ij.2]) (better.take 1))]
 
 def ops : List (String × J.Op) :=
   [("c06.eval", opEval), ("c06.sorting", opSorting), ("c06.hillclimb", opHillclimb),
-   ("c06.sorting_hillclimb", opSortingHillclimb), ("c06.sample", opSample), ("c06.crossover", opCrossover),
+   ("c06.sorting_hillclimb", opSortingHillclimb), ("c06.steepest_ascent", opSteepestAscent), ("c06.sample", opSample), ("c06.crossover", opCrossover),
    ("c06.mutation", opMutation), ("c06.neighbors", opNeighbors), ("c06.mutator_rows", opMutatorRow),
-   ("c06.round", opRound), ("c06.spec_solution", opSpecSolution), ("c06.spec_population", opSpecPopulation),
+   ("c06.round", opRound), ("c06.assemble", opAssemble), ("c06.spec_solution", opSpecSolution), ("c06.spec_population", opSpecPopulation),
    ("c06.spec_optimum", opSpecOptimum), ("c06.spec_localopt", opSpecLocalOpt)]
 
 end Drv.C06
